@@ -6,12 +6,13 @@
   Reading (DESIGN 7/C17).  Divisor rules: no tie-freeness; `haSeats cfg c` are the seats awarded to `c`
   individually, seats inside an unresolved `Tie` are counted for nobody.
 -/
-import VotelibProofs.Lemmas.HAMono
+import VotelibProofs.Lemmas.HAMonoFull
 import VotelibProofs.Props.C01
 import VotelibProofs.Lemmas.MonoScorers
 import VotelibProofs.Lemmas.MonoAdditive
 import VotelibProofs.Lemmas.MonoBucklin
 import VotelibProofs.Lemmas.MonoMinimax
+import VotelibProofs.Lemmas.MonoBridge
 namespace VL.C17
 open VL HACfg Gen.Divisor VL.Convert VL.Mono
 
@@ -40,15 +41,20 @@ theorem ha_house_monotone (cfg : HACfg) (hd : cfg.div ∈ builtinDivisors) (hv :
 theorem ha_house_monotone_general (cfg : HACfg) (h : CfgOK cfg) (c : Cand) :
     haSeats cfg c ≤ haSeats cfg.succHouse c := haSeats_succHouse cfg h c
 
-/-- **Vote monotonicity, tie-free form.**  Giving one party more votes while the others keep theirs never lowers
-    its individually awarded seats, provided the election with more votes reports no tie.
-    Full statement (no premise on ties): `ha_vote_monotone`, listed as unproved. -/
-theorem ha_vote_monotone_partial (cfg cfg' : HACfg) (c : Cand) (hd : cfg.div ∈ builtinDivisors)
+/-- **Vote monotonicity.**  Under every built-in divisor rule — for all vote vectors, previous gains and caps (at
+    least the previous gains), tie or no tie in either election — giving one party more votes while the others keep
+    theirs never lowers its individually awarded seats. -/
+theorem ha_vote_monotone (cfg cfg' : HACfg) (c : Cand) (hd : cfg.div ∈ builtinDivisors)
     (hv : VotesOK cfg) (hv' : VotesOK cfg') (hm : MoreVotes cfg cfg' c)
-    (hcaps : ∀ e, cfg.prevOf e ≤ cfg.capOf e) (hnotie : (haRun cfg').tie = none) :
+    (hcaps : ∀ e, cfg.prevOf e ≤ cfg.capOf e) :
     haSeats cfg c ≤ haSeats cfg' c :=
-  haSeats_more_votes cfg cfg' c (C01.cfgOK_of_divisor cfg (builtin_ok hd) hv.1 hv.2)
-    (C01.cfgOK_of_divisor cfg' (by rw [hm.div]; exact builtin_ok hd) hv'.1 hv'.2) hm hcaps hnotie
+  haSeats_more_votes_full cfg cfg' c (C01.cfgOK_of_divisor cfg (builtin_ok hd) hv.1 hv.2)
+    (C01.cfgOK_of_divisor cfg' (by rw [hm.div]; exact builtin_ok hd) hv'.1 hv'.2) hm hcaps
+
+/-- the same for every positive, non-decreasing divisor sequence -/
+theorem ha_vote_monotone_general (cfg cfg' : HACfg) (c : Cand) (h : CfgOK cfg) (h' : CfgOK cfg') (hm : MoreVotes cfg cfg' c)
+    (hcaps : ∀ e, cfg.prevOf e ≤ cfg.capOf e) : haSeats cfg c ≤ haSeats cfg' c :=
+  haSeats_more_votes_full cfg cfg' c h h' hm hcaps
 
 /-! ### non-vacuity -/
 
@@ -60,6 +66,10 @@ example : exCfg.div ∈ builtinDivisors := by simp [builtinDivisors, exCfg]
 example : VotesOK exCfg := by decide +kernel
 example : (haRun exCfg').tie = none ∧ haSeats exCfg 2 = 0 ∧ haSeats exCfg' 2 = 1 := by decide +kernel
 example : haSeats exCfg 1 = 1 ∧ haSeats exCfg.succHouse 1 = 2 := by decide +kernel
+
+/-- a base election that ends in a tie (6, 3, 3 votes, three seats under D'Hondt): all three parties tie for the last two seats -/
+def exTie : HACfg := { div := d_hondt, votes := [(0, 6), (1, 3), (2, 3)], n := 3, prev := [], caps := [] }
+example : (haRun exTie).tie = some ([1, 2, 0], 2) ∧ haSeats exTie 0 = 1 ∧ haSeats exTie.succHouse 1 = 1 := by decide +kernel
 
 /-! ## winner rules: the generic additive argument
 
@@ -473,6 +483,64 @@ theorem minimax_monotone (sc : Condorcet.Scorer) (v v' : Pairwise) (w : Cand) (h
   exact wlt_of_wle_of_wlt_of_wle (worst_w_le sc hwf hwf' hp hp' hr) (h.2 c (hc c hcc) hcw)
     (worst_y_ge sc hwf hwf' hp hp' hr hcw)
 
+/-! ### Copeland and minimax, on the level of the ballots
+
+  `ProfileOK p`: ballots without repeated candidates, positive weights, and every candidate occurs in some counted
+  pair (false only for the degenerate profiles whose every ballot puts all candidates into one shared rank, on which
+  these evaluators return `[]`).  "One unit of weight": the changed ballot has weight at least 1. -/
+
+theorem mem_candidates_of_copeland {p : RProfile} {w : Cand} (h : evalCopeland false p = [Slot.cand w]) :
+    w ∈ Condorcet.candidates (pairwiseOf p) := by
+  have h0 : getNBest (Condorcet.seededScores (pairwiseOf p)
+      (Condorcet.copelandScoresRaw (Condorcet.pairwiseWins (pairwiseOf p) false))) 1 = [Slot.cand w] := by
+    unfold evalCopeland Condorcet.copeland at h; simpa using h
+  have hn : (keys (Condorcet.seededScores (pairwiseOf p)
+      (Condorcet.copelandScoresRaw (Condorcet.pairwiseWins (pairwiseOf p) false)))).Nodup := by
+    rw [keys_seeded]; exact Condorcet.nodup_candidates _
+  rw [sole_iff _ hn, soleMax_iff _ hn, keys_seeded] at h0
+  exact h0.1
+
+/-- **Copeland, single ballot improvement.**  If `w` is the strict Copeland maximum and one unit of ballot `b` is
+    replaced by `b` with `w` lifted, the Copeland result (with or without second-order tie-breaking) is `[w]`. -/
+theorem copeland_monotone_lift (p : RProfile) (w : Cand) (i : Nat) (b : Ballot) (secondOrder : Bool)
+    (hp : ProfileOK p) (hb : b ∈ dkeys p) (hunit : ∀ bw ∈ p, bw.1 = b → 1 ≤ bw.2) (hok : liftOK w i b = true)
+    (h : evalCopeland false p = [Slot.cand w]) :
+    evalCopeland secondOrder (replaceUnit p b (lift w i b)) = [Slot.cand w] := by
+  have hw := mem_candidates_of_copeland h
+  have f := matrixFacts_lift p w i b hp hb hunit hok hw
+  exact copeland_monotone _ _ w secondOrder f.wf f.wf' f.raised f.cands (mem_candidates_lift p w i b hp hb hok hw) h
+
+/-- **Copeland, new ballot**: a bullet ballot for the strict Copeland maximum `w`. -/
+theorem copeland_monotone_bullet (p : RProfile) (w : Cand) (secondOrder : Bool) (hp : ProfileOK p)
+    (h : evalCopeland false p = [Slot.cand w]) :
+    evalCopeland secondOrder (addTo p [RankItem.one w] 1) = [Slot.cand w] := by
+  have hw := mem_candidates_of_copeland h
+  have f := matrixFacts_bullet p w hp hw
+  exact copeland_monotone _ _ w secondOrder f.wf f.wf' f.raised f.cands (mem_candidates_bullet p w hp hw) h
+
+theorem mem_candidates_of_minimax {sc : Condorcet.Scorer} {p : RProfile} {w : Cand} (hp : ProfileOK p)
+    (h : evalMinimax sc p = [Slot.cand w]) : w ∈ Condorcet.candidates (pairwiseOf p) := by
+  unfold evalMinimax at h
+  rw [minimax_sole sc _ (wf_pairwiseOf p hp).1.1] at h
+  exact h.1
+
+/-- **Minimax (winning votes / margins / pairwise opposition), single ballot improvement.** -/
+theorem minimax_monotone_lift (sc : Condorcet.Scorer) (p : RProfile) (w : Cand) (i : Nat) (b : Ballot)
+    (hp : ProfileOK p) (hb : b ∈ dkeys p) (hunit : ∀ bw ∈ p, bw.1 = b → 1 ≤ bw.2) (hok : liftOK w i b = true)
+    (h : evalMinimax sc p = [Slot.cand w]) :
+    evalMinimax sc (replaceUnit p b (lift w i b)) = [Slot.cand w] := by
+  have hw := mem_candidates_of_minimax hp h
+  have f := matrixFacts_lift p w i b hp hb hunit hok hw
+  exact minimax_monotone sc _ _ w f.wf f.wf' f.pos f.pos' f.raised f.cands (mem_candidates_lift p w i b hp hb hok hw) h
+
+/-- **Minimax, new ballot**: a bullet ballot for the sole winner `w`. -/
+theorem minimax_monotone_bullet (sc : Condorcet.Scorer) (p : RProfile) (w : Cand) (hp : ProfileOK p)
+    (h : evalMinimax sc p = [Slot.cand w]) :
+    evalMinimax sc (addTo p [RankItem.one w] 1) = [Slot.cand w] := by
+  have hw := mem_candidates_of_minimax hp h
+  have f := matrixFacts_bullet p w hp hw
+  exact minimax_monotone sc _ _ w f.wf f.wf' f.pos f.pos' f.raised f.cands (mem_candidates_bullet p w hp hw) h
+
 /-! ## non-vacuity: concrete inputs that meet the hypotheses of the conditional theorems -/
 
 section examples
@@ -480,13 +548,13 @@ open VL.Condorcet
 
 /-- three candidates, truncated ballots, a shared rank -/
 def exProfile : RProfile :=
-  [([.one 0, .one 1, .one 2], 3), ([.one 1, .one 0, .one 2], 2), ([.one 2, .one 0, .one 1], 1),
+  [([.one 0, .one 1, .one 2], 4), ([.one 1, .one 0, .one 2], 2), ([.one 2, .one 0, .one 1], 1),
    ([.one 1, .shared [0, 2]], 1), ([.one 2, .one 1], 1)]
 
 example : ∀ x ∈ dkeys exProfile, BallotOK x := by decide +kernel
 example : ScorerOK (.borda 1) ∧ ScorerOK .dowdall ∧ ScorerOK (.geometric 2) ∧ ScorerOK .modifiedBorda ∧
     ScorerOK (.fixedTop 2) := by simp [ScorerOK]
-example : evalPositional (.borda 1) exProfile = .ok [Slot.cand 0] := by decide +kernel
+example : evalPositional .dowdall exProfile = .ok [Slot.cand 0] := by decide +kernel
 example : evalPositional .modifiedBorda exProfile = .ok [Slot.cand 0] := by decide +kernel
 -- the shared-rank ballot (1, {0,2}): lifting 0 to the top gives (0, 1, 2), one place more
 example : liftOK 0 0 [.one 1, .shared [0, 2]] = true ∧ lift 0 0 [.one 1, .shared [0, 2]] = [.one 0, .one 1, .one 2] := by
@@ -501,7 +569,7 @@ def exBucklin : RProfile := [([.one 1, .one 0], 2), ([.one 2, .one 0], 2), ([.on
 example : evalBucklin exBucklin = .ok [Slot.cand 0] ∧ (∀ bw ∈ exBucklin, 0 ≤ bw.2) := by decide +kernel
 example : evalBucklin (addTo exBucklin [.one 0] 1) = .ok [Slot.cand 0] := by decide +kernel
 
-def exApproval : AProfile := [([0, 1], 2), ([1, 2], 1), ([0], 1), ([2], 1)]
+def exApproval : AProfile := [([0, 1], 2), ([1, 2], 1), ([0], 2), ([2], 1)]
 example : evalApproval exApproval = .ok [Slot.cand 0] ∧ (0 : Cand) ∉ ([1, 2] : Approval) := by decide +kernel
 
 def exScore : SProfile := [([(0, 3), (1, 1)], 2), ([(1, 3), (2, 2)], 1)]
@@ -520,6 +588,9 @@ example : Condorcet.WF (pairwiseOf exBase) ∧ Condorcet.WF (pairwiseOf exPert) 
 example : minimax .winningVotes (pairwiseOf exBase) 1 = [Slot.cand 0] ∧ copeland false (pairwiseOf exBase) 1 = [Slot.cand 0] := by
   decide +kernel
 example : minimax .winningVotes (pairwiseOf exPert) 1 = [Slot.cand 0] := by decide +kernel
+example : ProfileOK exBase := ⟨by decide +kernel, by decide +kernel, by decide +kernel⟩
+example : evalMinimax .winningVotes exBase = [Slot.cand 0] ∧ evalCopeland false exBase = [Slot.cand 0] ∧
+    liftOK 0 0 [.one 2, .one 3, .one 1, .one 0] = true := by decide +kernel
 example : (candidates (pairwiseOf exPert)).all (fun c => (candidates (pairwiseOf exBase)).contains c) = true := by
   decide +kernel
 -- `Raised` on this pair, checked entry by entry over the four candidates
@@ -534,15 +605,8 @@ example : MoreVotes exCfg exCfg' 2 := by
   refine ⟨rfl, rfl, rfl, rfl, rfl, ?_, ?_⟩
   · decide +kernel
   · intro e he
-    have : ∀ votes : Votes, e ≠ 2 → getD ((2, (1 : Rat)) :: votes) e 0 = getD ((2, (4 : Rat)) :: votes) e 0 := by
-      intro votes h; simp [getD, lookup, List.find?, fun h' : 2 = e => h h'.symm]
-    unfold HACfg.vote exCfg' exCfg
-    simp only [getD, lookup, List.find?]
-    by_cases h0 : (0 : Cand) = e
-    · simp [h0]
-    · by_cases h1 : (1 : Cand) = e
-      · simp [h0, h1]
-      · simp [h0, h1, fun h' : 2 = e => he h'.symm]
+    have h2 : ¬ (2 : Cand) = e := fun h' => he h'.symm
+    simp only [HACfg.vote, exCfg', exCfg, getD, Condorcet.lookup_cons, h2, if_false]
 
 end examples
 
